@@ -29,7 +29,9 @@ J5 == [name |-> "!invalid", steps |-> <<[Step("e5", "?", "undecodable", "*", {},
 Slp(st, n) == [st EXCEPT !.sleep = n]
 S4 == [name |-> "s4", steps |-> <<Slp(Step("c4", "Hello", "none", "s4.c4", {"name"}, {}, ""), 2), Slp(TailStep("s4"), 2),
                                   [TailStep("s4") EXCEPT !.tag = "s4.ct2"]>>]
-Cat(k) == IF k = "json" THEN {J1, J2, J3, J4, J5} ELSE {S1, S2, S3, S4}
+\* a template that fails DURING execution (after writing part of its output): nothing is sent, one failed sample
+S5 == [name |-> "s5", steps |-> <<Step("c5", "Hello", "tmplfail", "s5.c5", {"name"}, {"b"}, ""), TailStep("s5")>>]
+Cat(k) == IF k = "json" THEN {J1, J2, J3, J4, J5} ELSE {S1, S2, S3, S4, S5}
 Files(k) == UNION {[1..n -> Cat(k)] : n \in 1..MaxFile}
 
 Init == \E k \in Kinds : \E f \in Files(k) : \E n \in 1..MaxInst : \E c \in Cfgs : InitCfg(k, f, n, c)
@@ -59,9 +61,11 @@ BadSet  == {Abs("Hello", <<>>, mds, "unknown", "rot", "rot") : mds \in {{}, {"a"
                  a.fields \in FieldSubsets(a.call)}
 \* lines that are not a grpc/json entry at all (continue-on-error: skipped with a failed sample, never sent);
 \* md carries the KIND of garbage for the renderer
+\* scenario calls whose payload / metadata template fails during execution (style carries the variant)
+TmplFail == {Abs("Hello", <<FStr("name")>>, {"a"}, "tmplfail", v, "rot") : v \in {"payload", "metadata"}}
 Undecodable == {Abs("Hello", <<>>, {}, "undecodable", g, "rot") : g \in {"truncated", "notjson", "array", "payloadstring"}}
 GoodSeq == SetToSeq(GoodSet)
-BadSeq  == SetToSeq(BadSet \cup Undecodable)
+BadSeq  == SetToSeq(BadSet \cup Undecodable \cup TmplFail)
 \* bad entries interleaved with good ones: one bad entry after every K good ones, the rest of the good at the end
 K == Len(GoodSeq) \div Len(BadSeq)
 RECURSIVE Weave(_)
@@ -69,7 +73,7 @@ Weave(j) == IF j > Len(BadSeq) THEN SubSeq(GoodSeq, (j - 1) * K + 1, Len(GoodSeq
             ELSE SubSeq(GoodSeq, (j - 1) * K + 1, j * K) \o <<BadSeq[j]>> \o Weave(j + 1)
 Woven == Weave(1)
 N == Len(Woven)
-Rot(a, i) == IF a.bad = "undecodable" THEN a ELSE
+Rot(a, i) == IF a.bad \in {"undecodable", "tmplfail"} THEN a ELSE
              [a EXCEPT !.style = IF @ = "rot" THEN (IF i % 2 = 0 THEN "camel" ELSE "proto") ELSE @,
                        !.num   = IF @ = "rot" THEN (IF (i \div 2) % 2 = 0 THEN "number" ELSE "string") ELSE @]
 Entry(i) == [id |-> i] @@ Rot(Woven[i], i)
@@ -89,6 +93,12 @@ BadIdx == SelectSeq(Fwd, LAMBDA i : Woven[i].bad # "none")
 BadFirst == BadIdx \o SelectSeq(Fwd, LAMBDA i : Woven[i].bad = "none")
 \* undecodable lines exist in files only (scenario definitions have no lines)
 Scn(o) == SelectSeq(o, LAMBDA i : Woven[i].bad # "undecodable")
+\* templates exist in scenarios only
+Jsn(o) == SelectSeq(o, LAMBDA i : Woven[i].bad # "tmplfail")
+\* the second tail: Hello{name} WITHOUT metadata -- scenarios alternate between the two tails, so that consecutive
+\* calls of one gun have different, also disjoint and empty, metadata key sets
+IsTail0(a) == a.call = "Hello" /\ Len(a.fields) = 1 /\ a.md = <<>> /\ a.bad = "none"
+Tail0Id == CHOOSE i \in 1..N : IsTail0(Woven[i]) /\ \A j \in 1..(i - 1) : ~IsTail0(Woven[j])
 \* a run: kind, shared-client (with `clients` pooled clients), instances, file order, extra scenario shots,
 \* refl: reflection served on ANOTHER port by ANOTHER server (reflect_port), timeout (ms, 0 = the 120 s default
 \* of the driver), sleeps: think time (ms) after step 1 and step 2 of the <entry, tail, tail> scenarios
@@ -98,11 +108,11 @@ Run(k, s, c, n, o, x, r) == [kind |-> k, shared |-> s, clients |-> c, inst |-> n
 SlowT == 1000
 SlowRun == [Run("scn", FALSE, 1, 4, SubSeq(Scn(SelectSeq(Fwd, LAMBDA i : Woven[i].bad = "none")), 1, 4), 0, FALSE)
             EXCEPT !.timeout = SlowT, !.sleeps = <<(SlowT * 6) \div 10, (SlowT * 6) \div 10>>]
-Runs == <<Run("json", FALSE, 1, 1, Fwd, 0, FALSE), Run("json", TRUE, 1, 2, Rev, 0, TRUE), Run("json", FALSE, 1, 3, BadFirst, 0, TRUE),
-          Run("json", TRUE, 3, 1, BadFirst, 0, TRUE), Run("json", FALSE, 1, 2, Fwd, 0, FALSE), Run("json", TRUE, 2, 3, Rev, 0, FALSE),
+Runs == <<Run("json", FALSE, 1, 1, Jsn(Fwd), 0, FALSE), Run("json", TRUE, 1, 2, Jsn(Rev), 0, TRUE), Run("json", FALSE, 1, 3, Jsn(BadFirst), 0, TRUE),
+          Run("json", TRUE, 3, 1, Jsn(BadFirst), 0, TRUE), Run("json", FALSE, 1, 2, Jsn(Fwd), 0, FALSE), Run("json", TRUE, 2, 3, Jsn(Rev), 0, FALSE),
           Run("scn", FALSE, 1, 1, Scn(Fwd), 0, TRUE), Run("scn", FALSE, 1, 2, Scn(Rev), 40, FALSE), Run("scn", FALSE, 1, 3, Scn(BadFirst), N, FALSE),
           SlowRun>>
-CaseDoc == [entries |-> EntriesOut, tail |-> TailId, runs |-> Runs]
+CaseDoc == [entries |-> EntriesOut, tail |-> TailId, tail0 |-> Tail0Id, runs |-> Runs]
 
 GenInit == InitWith("json", <<>>, 1) /\ PrintT(<<"VERIF", ToJson(CaseDoc)>>)
 GenNext == UNCHANGED vars
